@@ -217,9 +217,10 @@ def deribit_memo_rule(model, res):
     return n
 
 
-def run(model, tier="quick"):
-    res = Result("C01", EXPLANATION)
-    res.rules = ["R-FORMULA", "R-TOKEN", "R-COVER", "R-PAIR-XFER", "R-CACHE"]
+
+def valuation_refs(res, model):
+    """The account's net value and every market's valuation equal the reference formulas (also a premise of C03: an
+    operation cannot create value only if the valuation counts every holding exactly once)."""
     effects_check(res, model, "Broker.get_account_status", REF_ACCOUNT,
                   "account: every market once, converted by ITS quote token's price; every asset at ITS token's price; sum",
                   FX, opaque=[], ordered=False)
@@ -240,6 +241,13 @@ def run(model, tier="quick"):
     formula_check(res, model, "GmxMarket.get_market_balance", C17.REF_V1_BALANCE, "GMX v1: shares*price + rewards*price")
     formula_check(res, model, "GmxV2Market.get_market_balance", C17.REF_V2_BALANCE, "GMX v2: shares * pool value / supply",
                   opaque=["getTokenAmountsFromGM"])
+
+
+def run(model, tier="quick"):
+    res = Result("C01", EXPLANATION)
+    res.rules = ["R-FORMULA", "R-TOKEN", "R-COVER", "R-PAIR-XFER", "R-CACHE"]
+    valuation_refs(res, model)
+    M = "UniLpMarket."
     # exactly-once accounting of a lent LP position
     effects_check(res, model, M + "transfer_position_out", REF_TRANSFER_OUT, "lend: only an existing, not yet lent position", FX, keep_raise_effects=True)
     effects_check(res, model, M + "transfer_position_in", REF_TRANSFER_IN, "take back: only a lent position", FX, keep_raise_effects=True)
